@@ -925,11 +925,52 @@ fn run_tier<C: Check>(check: &C, tier: Tier) -> i32 {
     // ---- violations: minimise, write replay, verify in a fresh process
     let known = load_known(&root);
     let mut unknown = 0u64;
+    let mut unreproduced = 0u64;
     let mut reported: Vec<Value> = Vec::new();
     let mut by_run: Vec<&Found<C::Scenario>> = found.values().collect();
     by_run.sort_by_key(|f| f.run);
     let mut seen_known: BTreeSet<String> = BTreeSet::new();
-    for f in by_run.iter().take(12) {
+    if by_run.len() > 12 {
+        // many different violations: the ones whose scenario reproduces on its own in a fresh process come first (a
+        // violation that depends on what other worker threads were doing at the time is not believed, see below)
+        let _ = std::fs::create_dir_all(root.join("replays"));
+        let probe_file = root.join("replays").join(format!("{}-{}probe-{seed}.json", check.id(), if check.leg().is_empty() { String::new() } else { format!("{}-", check.leg()) }));
+        let mut alone: BTreeSet<u64> = BTreeSet::new();
+        for f in by_run.iter().take(150) {
+            let rf = ReplayFile {
+                property: check.id().to_string(),
+                clause: f.violation.clause.clone(),
+                key: f.violation.key.clone(),
+                message: f.violation.message.clone(),
+                verif_seed: seed,
+                run: f.run,
+                tier: tier.name().to_string(),
+                shrink_steps: 0,
+                scenario: serde_json::to_value(&f.scenario).unwrap_or(Value::Null),
+                history: Vec::new(),
+                intermittent: None,
+            };
+            let ok = std::fs::write(&probe_file, serde_json::to_string_pretty(&rf).unwrap_or_default()).is_ok()
+                && std::env::current_exe()
+                    .ok()
+                    .and_then(|exe| std::process::Command::new(exe).arg("--replay").arg(&probe_file).env("VERIF_ROOT", &root).output().ok())
+                    .is_some_and(|o| String::from_utf8_lossy(&o.stdout).contains(&format!("key={} digest=", f.violation.key)));
+            if ok {
+                alone.insert(f.run);
+                if alone.len() >= 12 {
+                    break;
+                }
+            }
+        }
+        let _ = std::fs::remove_file(&probe_file);
+        by_run.sort_by_key(|f| (!alone.contains(&f.run), f.run));
+    }
+    // at most 12 violations are worked up; ones that do not reproduce in a fresh process are not believed and do not
+    // count towards the 12 (at most 24 are tried)
+    for f in by_run.iter().take(24) {
+        if unknown + seen_known.len() as u64 >= 12 {
+            break;
+        }
         let file = root.join("replays").join(format!(
             "{}-{}{}-{}-{}.json",
             check.id(),
@@ -1055,7 +1096,11 @@ fn run_tier<C: Check>(check: &C, tier: Tier) -> i32 {
                                 v.key,
                                 file.display()
                             );
-                            return 2;
+                            // not believed (and not reported as a violation); the other violations of this run are
+                            // still confirmed and reported one by one
+                            unreproduced += 1;
+                            let _ = std::fs::remove_file(&file);
+                            continue;
                         }
                         let fin = ReplayFile { intermittent: Some((hits, tries)), ..orig };
                         let _ = std::fs::write(&file, serde_json::to_string_pretty(&fin).unwrap_or_default());
@@ -1189,6 +1234,8 @@ fn run_tier<C: Check>(check: &C, tier: Tier) -> i32 {
     );
     if unknown > 0 {
         1
+    } else if unreproduced > 0 {
+        2
     } else {
         0
     }
